@@ -47,7 +47,8 @@ func drawChain(c *core.Ctx) ([]lcert, bool) {
 	for i := 0; i < n; i++ {
 		var lc lcert
 		if perm[i] == len(fixtures.Leaves) {
-			lc.der = fixtures.CADER
+			// a CA certificate as chain element: EC, RSA or Ed25519 key
+			lc.der = fixtures.Leaves[c.Pick("chain.ca", len(fixtures.Leaves))].CADER
 		} else {
 			lc.leaf = fixtures.Leaves[perm[i]]
 			lc.der = lc.leaf.DER
@@ -226,6 +227,50 @@ func TestClean(t *testing.T) {
 						c.Violation("roundtrip", "ReadCertChain/earlier-result-after-later-read", "certificate %d of the first chain changed after another chain was read", i)
 					}
 				}
+			}
+			// history: the tool's way - one bytes.Buffer is destination and source, reused for the
+			// next chain while the caller still holds the first parsed chain
+			if c.Oracle("C17") && c.Chance("reuseOneBuffer", 1, 3) {
+				var buf bytes.Buffer
+				var first certurl.CertChain
+				var e1, e2 error
+				if pi := c.Guard("CertChain.Write+ReadCertChain", func() {
+					if e1 = toRepo(ch).Write(&buf); e1 == nil {
+						first, e2 = certurl.ReadCertChain(&buf)
+					}
+				}); pi != nil {
+					c.CheckTotal("ReadCertChain", buf.Len(), pi, 0)
+				}
+				if e1 != nil || e2 != nil {
+					c.Violation("read-error", "ReadCertChain/reused-buffer", "round trip through a bytes.Buffer failed: %v / %v", e1, e2)
+				}
+				ch2, _ := drawChain(c)
+				ch2[0].ocsp = []byte("another-ocsp-response")
+				for i := 1; i < len(ch2); i++ {
+					ch2[i].ocsp = nil
+				}
+				buf.Reset()
+				c.Guard("CertChain.Write+ReadCertChain", func() {
+					if toRepo(ch2).Write(&buf) == nil {
+						certurl.ReadCertChain(&buf)
+					}
+				})
+				// ... and finally the buffer's memory is reused for something else entirely
+				raw := buf.Bytes()
+				raw = raw[:cap(raw)]
+				for i := range raw {
+					raw[i] = 0xa5
+				}
+				if len(first) != len(ch) {
+					c.Violation("roundtrip", "ReadCertChain/reused-buffer", "%d certificates read, %d written", len(first), len(ch))
+				}
+				for i, lc := range ch {
+					g := first[i]
+					if !bytes.Equal(g.Cert.Raw, lc.der) || !bytes.Equal(g.OCSPResponse, lc.ocsp) || !bytes.Equal(g.SCTList, lc.sct) {
+						c.Violation("roundtrip", "ReadCertChain/result-after-buffer-reuse", "certificate %d of a parsed chain changed when the buffer it was read from was reused", i)
+					}
+				}
+				c.Probe("parsed chain re-checked after its source buffer was reused")
 			}
 			c.Outcome("nt:ok")
 			c.Sig("m%d", plan.Mode)
